@@ -2,7 +2,7 @@ from lanes import *  # noqa
 
 PROP = {
         "level": "exploration",
-        "level_text": "Seeded exploration with a reference model as oracle: thousands (quick) to hundreds of thousands (thorough) of generated well-nested programs over the real frame API - push/root/disabled/current x enter-guard/with/call/in_fn/in_future, re-entered frames, frames carried to other threads and tasks, 2-4 context instances reached through 14 handle types (inline and boxed ErasedFrame payloads), futures interleaved on a hand-written single-threaded executor, cancellation, migration between threads, seeded panics under catch_unwind - with with_current compared against a stack-of-maps model at every program point on every thread. The same monitor runs under Miri (aliasing / uninitialised / dangling / leaks / data races in the ErasedFrame union, the ManuallyDrop frame, the FrameFuture pin projection) in both tiers and under ThreadSanitizer in the thorough tier. Held-on-what-was-observed over sampled programs and OS/Miri-chosen schedules, not a proof over all programs.",
+        "level_text": "Seeded exploration with a reference model as oracle: thousands (quick) to hundreds of thousands (thorough) of generated well-nested programs over the real frame API - push/root/disabled/current x enter-guard/with/call/in_fn/in_future, re-entered frames, frames carried to other threads and tasks, 2-4 context instances (ThreadLocalCtxt and emit_traceparent::TraceparentCtxt<ThreadLocalCtxt>, created on different threads) reached through 14 handle types (inline and boxed ErasedFrame payloads), futures interleaved on a hand-written single-threaded executor, cancellation, migration between threads, seeded panics under catch_unwind - with with_current (and, for traceparent instances, the contributed trace ids and Traceparent::current()) compared against a stack-of-maps model plus a per-thread traceparent stack at every program point on every thread. The same monitor runs under Miri (aliasing / uninitialised / dangling / leaks / data races in the ErasedFrame union, the ManuallyDrop frame, the FrameFuture pin projection) in both tiers and under ThreadSanitizer in the thorough tier. Held-on-what-was-observed over sampled programs and OS/Miri-chosen schedules, not a proof over all programs.",
         "level_note": "Trusts the stack-of-maps model in harness/mon/src/bin/c03.rs (written from the property statement), the generator's well-nestedness (out-of-stack-order exits are never produced) and the delegating Pad ctxt used to force boxed ErasedFrame payloads. Observation is through Ctxt::with_current and through the ambient properties of events emitted via an AmbientSlot-held runtime.",
         "technique": "runtime monitoring: generated frame programs interpreted against the real API in lock-step with a reference model; Miri and ThreadSanitizer builds of the same monitor",
         "assumptions": [
